@@ -37,7 +37,9 @@ class Unit(object):
 
     def __init__(self, prop, name, target, params, requires=(), ensures=(), raises=(), loops=None, ghost=(),
                  init="", folds=None, list_kinds=None, exits=None, slice=None, defaults=None, note="",
-                 ensures_raise=(), uses_join=False, callees=None):
+                 ensures_raise=(), uses_join=False, callees=None, prebind=None, defs=None):
+        self.defs = defs or {}
+        self.prebind = prebind or {}
         self.uses_join = uses_join
         self.callees = callees or {}
         self.prop, self.name, self.target = prop, name, target
@@ -108,6 +110,8 @@ class Executor(EvalMixin, MethodsMixin, ExecMixin):
         self.builtins = self.make_builtins()
         self.special_forms = self.make_special_forms()
         self.install_folds()
+        for dn, (dargs, dbody) in unit.defs.items():
+            self.special_forms[dn] = self.make_macro(dn, dargs, parse_expr(dbody))
         self.assumptions = set()
         self.uses_join = False
 
@@ -127,6 +131,22 @@ class Executor(EvalMixin, MethodsMixin, ExecMixin):
                 st.assume(goal)
                 return
         EvalMixin.safety(self, st, exc, goal, node, note)
+
+    def make_macro(self, name, argnames, body):
+        def macro(node, st):
+            vals = [self.ev(a, st) for a in node.args]
+            saved = dict((a, st.env.get(a)) for a in argnames)
+            for a, v in zip(argnames, vals):
+                st.env[a] = v
+            try:
+                return self.ev(body, st)
+            finally:
+                for a in argnames:
+                    if saved[a] is None:
+                        st.env.pop(a, None)
+                    else:
+                        st.env[a] = saved[a]
+        return macro
 
     def install_folds(self):
         for nm, fd in self.unit.folds.items():
@@ -215,6 +235,7 @@ class Executor(EvalMixin, MethodsMixin, ExecMixin):
         gn, _, _ = assigned_names(gcode)
         pn, _, _ = assigned_names(fn.body)
         pn |= set(a.arg for a in fn.args.args)
+        gn -= {"tree_key", "tree_val"}
         clash = gn & pn
         if clash:
             raise ContractError("ghost names clash with program names: %s" % sorted(clash))
@@ -310,7 +331,10 @@ class Executor(EvalMixin, MethodsMixin, ExecMixin):
             st.env[nm] = self.make_value(spec, st, nm)
         # default values of parameters not listed are not modelled: every read must be declared
         for nm in list(st.env):
-            st.env["old$" + nm] = st.env[nm]
+            v = st.env[nm]
+            if isinstance(v, VRef) and isinstance(st.heap[v.oid], (HList, HCList)):
+                v = st.alloc(st.heap[v.oid])     # snapshot of the list contents at entry
+            st.env["old$" + nm] = v
         self.in_contract = True
         self.cur_line = self.fn.lineno
         for r in u.requires:
